@@ -73,11 +73,35 @@ type Cfg struct {
 	NfIP      uint32
 	NfBits    int
 	DNS       uint32
+	DNSForm   string // "" plain IPv4 (DNS), "z" zero value, "m" IPv4-mapped form of DNS, "v6" another IPv6 address
 }
 
 func (c Cfg) Tokens() []string {
 	return []string{strconv.Itoa(c.Mode), hx32(c.HostIP), hxmac(c.HostMAC), hx32(c.RouterIP), hxmac(c.RouterMAC),
-		hx32(c.HomeIP), strconv.Itoa(c.HomeBits), hx32(c.NfIP), strconv.Itoa(c.NfBits), hx32(c.DNS)}
+		hx32(c.HomeIP), strconv.Itoa(c.HomeBits), hx32(c.NfIP), strconv.Itoa(c.NfBits), c.dnsToken()}
+}
+
+func (c Cfg) dnsToken() string {
+	switch c.DNSForm {
+	case "z", "v6":
+		return c.DNSForm
+	case "m":
+		return "m" + hx32(c.DNS)
+	}
+	return hx32(c.DNS)
+}
+
+// dnsAddr is Config.DNSServer in the form the case asks for.
+func (c Cfg) dnsAddr() netip.Addr {
+	switch c.DNSForm {
+	case "z":
+		return netip.Addr{}
+	case "v6":
+		return netip.MustParseAddr("2001:db8::1")
+	case "m":
+		return netip.AddrFrom16(ip4(c.DNS).As16())
+	}
+	return ip4(c.DNS)
 }
 
 func ParseCfg(a []string) (Cfg, []string) {
@@ -92,7 +116,26 @@ func ParseCfg(a []string) (Cfg, []string) {
 		return n
 	}
 	return Cfg{Mode: at(a[0]), HostIP: unhx32(a[1]), HostMAC: unhx(a[2]), RouterIP: unhx32(a[3]), RouterMAC: unhx(a[4]),
-		HomeIP: unhx32(a[5]), HomeBits: at(a[6]), NfIP: unhx32(a[7]), NfBits: at(a[8]), DNS: unhx32(a[9])}, a[10:]
+		HomeIP: unhx32(a[5]), HomeBits: at(a[6]), NfIP: unhx32(a[7]), NfBits: at(a[8]), DNS: dnsOf(a[9]), DNSForm: formOf(a[9])}, a[10:]
+}
+
+func formOf(t string) string {
+	switch {
+	case t == "z" || t == "v6":
+		return t
+	case strings.HasPrefix(t, "m"):
+		return "m"
+	}
+	return ""
+}
+func dnsOf(t string) uint32 {
+	switch formOf(t) {
+	case "z", "v6":
+		return 0
+	case "m":
+		return unhx32(t[1:])
+	}
+	return unhx32(t)
 }
 
 // Msg is a decoded client message (one D/R/X/L op).
@@ -394,9 +437,10 @@ func NewServerFile(c Cfg, file string, pre ...net.HardwareAddr) *Server {
 		file = filepath.Join(dir, fmt.Sprintf("dhcp-%d-%d.yaml", os.Getpid(), atomic.AddInt64(&counter, 1)))
 	}
 	h, err := dhcp4_spoofer.Config{Mode: dhcp4_spoofer.Mode(c.Mode), NetfilterIP: netip.PrefixFrom(ip4(c.NfIP), c.NfBits),
-		DNSServer: ip4(c.DNS), LeaseFilename: file}.New(s)
+		DNSServer: c.dnsAddr(), LeaseFilename: file}.New(s)
 	if err != nil {
-		panic(err)
+		go s.Close()
+		return nil // (Config).New rejects this configuration
 	}
 	return &Server{S: s, H: h, Conn: conn, file: file}
 }
@@ -473,7 +517,9 @@ func (sv *Server) Step(tok string) (string, *Reply) {
 	return fmt.Sprintf("multi%d", len(rs)), nil
 }
 
-func (sv *Server) Table() string { return showTable(sv.H.VerifLeases()) }
+func (sv *Server) Table() string {
+	return "m" + strconv.Itoa(int(sv.H.Mode())) + ";" + showTable(sv.H.VerifLeases())
+}
 
 // RunHist is the implementation runner of a "hist" case: all frames through one shared receive buffer.
 func RunHist(a []string) string { return runHist(a, true) }
@@ -484,6 +530,9 @@ func RunHistFresh(a []string) string { return runHist(a, false) }
 func runHist(a []string, shared bool) string {
 	c, ops := ParseCfg(a)
 	sv := NewServer(c)
+	if sv == nil {
+		return "rejected"
+	}
 	if shared {
 		sv.Shared = make([]byte, packet.EthMaxSize)
 	}
@@ -521,6 +570,9 @@ func RunRestart(a []string) string {
 	cB, rest := ParseCfg(rest)
 	opsA, opsB := SplitBar(rest)
 	svA := NewServer(cA)
+	if svA == nil {
+		return "rejected"
+	}
 	svA.Shared = make([]byte, packet.EthMaxSize)
 	for _, o := range opsA {
 		svA.Step(o)
@@ -532,6 +584,10 @@ func RunRestart(a []string) string {
 		opsB = opsB[1:]
 	}
 	sv := NewServerFile(cB, file, pre...)
+	if sv == nil {
+		os.Remove(file)
+		return "rejected"
+	}
 	sv.Shared = make([]byte, packet.EthMaxSize)
 	defer sv.Close()
 	out := make([]string, 0, len(opsB))
